@@ -461,6 +461,7 @@ def write_evidence(prop, tier, seed, rows, expected, wall, extra, note=None):
             "bounded_discharged": sum(1 for r in bounded if r["verdict"] == "discharged"),
             "ground_evaluated": [{"obligation": r["obligation"], "verdict": r["verdict"]} for r in ground],
             "contract_stubs_used": stubs_used,
+            "rests_on_obligations_of_other_checks": {k: {"count": len(v), "names": v[:6] + (["..."] if len(v) > 6 else [])} for k, v in OB.rests_on(prop).items()},
             "assumed_lemmas": meta.get("assumed_lemmas", []),
             "assumed_contracts": meta.get("assumed_contracts", []),
             "undecided_clauses": meta.get("undecided_clauses", []),
